@@ -118,7 +118,7 @@ theorem inv4_fstep {P : Project} {s s' : State} {t : Tid} (inv1 : Inv1 P s) (inv
     (st : FStep P s t s') : Inv4 P s' := by
   have ⟨k1, k2, k3⟩ := inv
   have hedge : ∀ x d, s.loading x = some d → d ∈ P.loads x := fun x d h => (loading_edge inv1 inv3 h).1
-  cases st <;> constructor <;> simp only [setPc, publish, upd] at * <;> first | grind [target] | skip
+  cases st <;> constructor <;> simp only [setPc, publish, goSleep, upd] at * <;> first | grind [target] | skip
   case runCall.tgt_reach f rest d ds hpc hst hb htd =>
     intro t1 d1 h
     by_cases ht : t1 = t
